@@ -37,7 +37,19 @@ pub fn check(c: &Call, rep: &mut Report) {
     let form = c.form.name();
     let pkt = match note_outcome(rep, c, &obs) {
         Some(p) => p,
-        None => return,
+        None => {
+            // arguments that are valid and fit the frame must be encoded with the stated layout;
+            // a refusal or a panic is not that encoding
+            if exp.outcome == Outcome::Ok {
+                let oc = match &obs.res {
+                    Ok(Err(())) => "refused".to_string(),
+                    Err(p) => format!("panic:{}", p.kind),
+                    _ => "no-packet".to_string(),
+                };
+                rep.violation(&format!("{}:valid-message-not-encoded:{}", form, oc), || format!("valid arguments ({} byte packet expected) were not encoded: {}", exp.total_len(), obs.brief()), || c.encode());
+            }
+            return;
+        }
     };
     let n = pkt.len();
     let body = &pkt[9..n - 1];
